@@ -5,6 +5,8 @@ layout and the reader's consumption grammar must equal it, so symmetric errors a
 from __future__ import annotations
 
 from rules import bf3
+from rules import stackfile
+from rules import stackrt
 
 LEVEL = "other"
 
@@ -26,4 +28,5 @@ def run(prog, chk, tier):
     from rules import adapter
 
     adapter.mac_definition_rules(prog, chk, "C03")
+    stackrt.guarded(chk, "C03.stack-bf3", stackfile.bf3_file_rules, prog, chk, "C03", tier, want=("layout",))
     chk.assume("AES-128 block function itself is FIPS-197 (decided by C16's table and round rules)")
